@@ -6,10 +6,11 @@ A_NOTE = ("Trusted: z3 (python wheel 5.1.0); engines/symex (symbolic CASM machin
           "decoders) whose semantics are validated on every run by replaying solver witnesses in the real "
           "SierraCasmRunner (result, relocated trace, n_steps, range-check count); fresh-segment allocation; "
           "pedersen/poseidon/ec_op as uninterpreted functions; inputs satisfy their Sierra type's validity "
-          "predicate. Bounds: <=512 paths / <=20000 steps per function, calls inlined to depth 8, concrete "
-          "loop trip counts, input arrays <=2 elements; per-query solver cap (12 s quick / 120 s thorough); "
+          "predicate. Bounds: <=512 paths / <=400000 steps per function, calls inlined to depth 5 (quick) / 10 "
+          "(thorough) with deeper paths cut and counted, concrete loop trip counts, input arrays <=2 (quick) / "
+          "<=3 (thorough) elements; per-query solver cap (12 s quick / 120 s thorough), cvc5 as second solver; "
           "queries that hit the cap are listed as undecided in the evidence and are neither pass nor fail. "
-          "Dictionaries, syscalls, circuits, blake, secp are outside.")
+          "Dictionaries, syscalls, circuits, blake, qm31, secp and hand-written Sierra are outside.")
 
 CHECKS = {
     "C03": dict(
